@@ -69,8 +69,9 @@ End Objects.
    compose_qoperations on one (operand, state) pair, matrix_util.truncate_and_normalize on a 1-d array *)
 Record pyops (M V S : Type) := {
   op_m_matmul : M -> M -> M;  op_m_matvec : M -> V -> V;  op_m_vecmat : V -> M -> V;  op_m_transpose : M -> M;
+  op_m_row0 : M -> V;  op_v_scale : S -> V -> V;
   op_v_conj : V -> V;  op_v_real : V -> V;  op_v_first : V -> S;  op_v_div : V -> S -> V;  op_v_zero : V;  op_v_vdot : V -> V -> S;
-  op_s_zero : S;  op_s_one : S;  op_s_mul : S -> S -> S;  op_s_div : S -> S -> S;  op_s_max : S -> S -> S;
+  op_s_atol : S;  op_s_zero : S;  op_s_one : S;  op_s_mul : S -> S -> S;  op_s_div : S -> S -> S;  op_s_max : S -> S -> S;
   op_s_leb : S -> S -> bool;  op_s_ltb : S -> S -> bool;  op_s_eq0 : S -> bool;  op_s_sum : list S -> S;
   op_cs_sqrt_dim : Z -> S;  op_cs_ortho : Z -> bool;  op_cs_ivec : Z -> V;
   op_k_truncate_and_normalize : list S -> list S;
@@ -97,4 +98,4 @@ Arguments di_ps {S}. Arguments di_shape {S}. Arguments di_is_zero_dist {S}.
 Arguments es_states {V S}. Arguments es_prob_dist {V S}. Arguments es_eps_zero {V S}.
 Arguments ty_of {M V S} o. Arguments obj_composite_system {M V S} o. Arguments obj_is_physicality_required {M V S} o.
 
-Arguments op_m_matmul {M V S} p. Arguments op_m_matvec {M V S} p. Arguments op_m_vecmat {M V S} p. Arguments op_m_transpose {M V S} p. Arguments op_v_conj {M V S} p. Arguments op_v_real {M V S} p. Arguments op_v_first {M V S} p. Arguments op_v_div {M V S} p. Arguments op_v_zero {M V S} p. Arguments op_v_vdot {M V S} p. Arguments op_s_zero {M V S} p. Arguments op_s_one {M V S} p. Arguments op_s_mul {M V S} p. Arguments op_s_div {M V S} p. Arguments op_s_max {M V S} p. Arguments op_s_leb {M V S} p. Arguments op_s_ltb {M V S} p. Arguments op_s_eq0 {M V S} p. Arguments op_s_sum {M V S} p. Arguments op_cs_sqrt_dim {M V S} p. Arguments op_cs_ortho {M V S} p. Arguments op_cs_ivec {M V S} p. Arguments op_k_truncate_and_normalize {M V S} p. Arguments op_k_compose {M V S} p.
+Arguments op_m_matmul {M V S} p. Arguments op_m_matvec {M V S} p. Arguments op_m_vecmat {M V S} p. Arguments op_m_transpose {M V S} p. Arguments op_v_conj {M V S} p. Arguments op_v_real {M V S} p. Arguments op_v_first {M V S} p. Arguments op_v_div {M V S} p. Arguments op_v_zero {M V S} p. Arguments op_v_vdot {M V S} p. Arguments op_s_zero {M V S} p. Arguments op_s_one {M V S} p. Arguments op_s_mul {M V S} p. Arguments op_s_div {M V S} p. Arguments op_s_max {M V S} p. Arguments op_s_leb {M V S} p. Arguments op_s_ltb {M V S} p. Arguments op_s_eq0 {M V S} p. Arguments op_s_sum {M V S} p. Arguments op_cs_sqrt_dim {M V S} p. Arguments op_cs_ortho {M V S} p. Arguments op_cs_ivec {M V S} p. Arguments op_k_truncate_and_normalize {M V S} p. Arguments op_k_compose {M V S} p. Arguments op_m_row0 {M V S} p. Arguments op_v_scale {M V S} p. Arguments op_s_atol {M V S} p.
